@@ -793,4 +793,31 @@ def failureWire (q : Query) (ede : EOpt) : Msg × WireInfo :=
      fl := { qr := true, rd := q.rd, cd := q.cd, ra := true }, question := some q.question },
    { rcode := rcodeServFail, ad := false, hasDnssec := false, ede := some ede })
 
+/-! ### the cache handler serving a plain hit (`serveHitFromWire` / `handleCacheHit`) -/
+
+/-- the encoded length of the entry's extended-error option (`wireEDEReserve`). -/
+def edeReserve (e : WEntry) : Nat := match e.ede with | some x => 4 + x.dataLen | none => 0
+
+/-- A plain cache hit behind the edns writer `w`: the byte route when the
+writer chain is a byte sink (`WireReady`), a body exists for this client's DO
+(`wireBodyFor`) and it fits the transport (`wireFitsChain`: packed body +
+reserve + EDE ≤ MaxSize), and `WriteWire` does not fall back; the message
+route (`ToMsg` + `WriteMsg`) otherwise. `Lp` is the packed length of a body. -/
+def cacheHit (L Lu Lp : Msg → Nat) (cfg : Cfg) (secretLen : Nat) (w : Writer) (baseReady : Bool)
+    (m : Msg) (q' : Query) : Option Msg :=
+  match newWEntry m, newCacheEntry m with
+  | some we, some e =>
+    let msgRoute := some (writeMsg L Lu cfg w (toMsg e q'))
+    match wireReady cfg secretLen w baseReady with
+    | none => msgRoute
+    | some cp =>
+      match serveWireInto we q' cp.do_ with
+      | none => msgRoute
+      | some (b, info) =>
+        if cp.maxSize > 0 ∧ Lp b + cp.reserve + edeReserve we > cp.maxSize then msgRoute
+        else match writeWire (fun x => Lp b + ((x.extra.filter RR.isOpt).map (rrLen true)).sum) cfg w b info with
+          | some r => some r
+          | none => msgRoute
+  | _, _ => none
+
 end SdnsVerif.Model.Edns
